@@ -113,5 +113,11 @@ def run(rep: Report, tier: str) -> None:
                             f"`{' '.join(sk.text.split())[:110]}` uses {hit}: DuckDB seeds it randomly, so what the engine does next (here: whether a column is normalised) differs from run "
                             f"to run and with the number of threads, for the same input"))
     rep.instance("R15.6", "sql-skeletons-scanned", nontrivial=False, sample={"skeletons": n6})
+    # ---- R15.7: the SQL generated for a script is a function of the script alone (shared with C17 R17.2) ----
+    rep.rule("R15.7", "no function of the transpiler or the viral-propagation SQL writers writes a process-global: generated SQL cached across runs makes a result depend on "
+                      "which scripts ran earlier in the process, not on the engine configuration")
+    from sa import globalsx as _gx7
+    _gx7.report_written_globals(P, rep, "R15.7", ("vtlengine.duckdb_transpiler.Transpiler", "vtlengine.ViralPropagation", "vtlengine.duckdb_transpiler.sql"),
+                                "the SQL generated for a script then depends on the scripts transpiled before it")
     rep.assumptions = ["DuckDB evaluates window functions / aggregates with ORDER BY deterministically when the order is total",
                        "preserve_insertion_order=false: no operator output order may be relied upon (premise read from the source)"]
